@@ -36,6 +36,7 @@ fn verif_entry() {
         "c18" => crate::event::verif_event::c18::run(replay),
         "c20" => crate::event::verif_event::c20::run(replay),
         "c19" => crate::event::verif_event::c19::run(replay),
+        "c06tm" => crate::event::verif_event::c06::run(replay),
         "c13" => crate::rpki::verif_rpki::run_c13(replay),
         "" => {
             eprintln!("verif_entry: VERIF_PART not set; nothing to do");
